@@ -108,6 +108,20 @@ theorem active_enabled {cfg : Cfg} (wf : WF cfg) {s : State} (h : Inv cfg s) {i 
   · obtain ⟨k, hk⟩ := hE2
     exact ⟨k, by unfold stepTask; rw [hk]; simp [hcbF]⟩
   have hnc : ∀ k : Nat, s.tasks[k]? ≠ some .cbAcq := fun k hk => hE2 ⟨k, hk⟩
+  -- then nobody holds an inner callback lock: somebody waiting for one can run
+  by_cases hE3 : ∃ k : Nat, s.tasks[k]? = some .cbAcqIn
+  · obtain ⟨k, hk⟩ := hE3
+    have hkl : k < cfg.n := by rw [← h.s.tasks_len]; exact getElem?_lt hk
+    have hI : wsum (fIn cfg (cfg.poolOf k)) 0 s.tasks = 0 := wsum_eq_zero _ _ _ (by
+      intro k' q hk'; have h1 := hnf k' q hk'; have h2 := hnc k'
+      cases q <;> simp [free] at h1 <;> simp [fIn, inIn]
+      exact absurd hk' h2)
+    have := h.l.cin (cfg.poolOf k) (wf.poolOf_lt hkl); rw [hI] at this
+    refine ⟨k, ?_⟩
+    unfold stepTask; rw [hk]
+    simp only [List.getD_eq_getElem?_getD] at this ⊢
+    cases hc : s.cbIn[cfg.poolOf k]?.getD false <;> simp [hc] at this ⊢
+  have hni : ∀ k : Nat, s.tasks[k]? ≠ some .cbAcqIn := fun k hk => hE3 ⟨k, hk⟩
   have hreg : wsum (fReg cfg) 0 s.tasks = 0 := wsum_eq_zero _ _ _ (by
     intro k q hk; have := hnf k q hk
     cases q <;> simp [free] at this <;> simp [fReg, holds])
@@ -130,24 +144,19 @@ theorem active_enabled {cfg : Cfg} (wf : WF cfg) {s : State} (h : Inv cfg s) {i 
   unfold stepTask
   rw [hi]
   cases p <;> simp [free] at hfp <;> simp at hp
-  · -- cbAcqIn: nobody holds the inner lock (holders are at cbAcq / cbBody)
-    have hI : wsum (fIn cfg (cfg.poolOf i)) 0 s.tasks = 0 := wsum_eq_zero _ _ _ (by
-      intro k q hk; have h1 := hnf k q hk; have h2 := hnc k
-      cases q <;> simp [free] at h1 <;> simp [fIn, inIn]
-      exact absurd hk h2)
-    have := h.l.cin (cfg.poolOf i) (wf.poolOf_lt hil); rw [hI] at this
-    simp only [List.getD_eq_getElem?_getD] at this ⊢
-    cases hc : s.cbIn[cfg.poolOf i]?.getD false <;> simp [hc] at this ⊢
-  · exact absurd hi (hnc i)
-  · have hT : wsum (fT cfg (cfg.obj i)) 0 s.tasks = 0 := wsum_eq_zero _ _ _ (by
-      intro k q hk; have h1 := hnf k q hk; have h2 := hnw k
+  · -- tAcq: nobody is inside a tensor section (all of its program counters have been excluded)
+    have hT : wsum (fT cfg (cfg.obj i)) 0 s.tasks = 0 := wsum_eq_zero _ _ _ (by
+      intro k q hk; have h1 := hnf k q hk; have h2 := hnw k; have h3 := hnc k; have h4 := hni k
       cases q <;> simp [free] at h1 <;> simp [fT, inT]
-      exact absurd hk h2)
+      · exact absurd hk h4
+      · exact absurd hk h3
+      · exact absurd hk h2)
     have := h.l.tl (cfg.obj i) (wf.obj_lt i hil); rw [hT] at this
     simp only [List.getD_eq_getElem?_getD] at this ⊢
     cases hc : s.tLocks[cfg.obj i]?.getD false <;> simp [hc] at this ⊢
+  · exact absurd hi (hni i)
+  · exact absurd hi (hnc i)
   · exact absurd hi (hnw i)
-
 
 theorem wsum_pos_exists {α : Type} (f : Nat → α → Nat) : ∀ (l : List α) (k : Nat), 0 < wsum f k l →
     ∃ i a, l[i]? = some a ∧ 0 < f (k + i) a
@@ -341,10 +350,10 @@ theorem progress {cfg : Cfg} (wf : WF cfg) {s : State} (h : Inv cfg s) (hnt : te
 
 def pcW (n : Nat) : Pc → Nat
   | .notStarted => 11 + (n + 1)
-  | .cbAcqIn => 10 + (n + 1)
-  | .cbAcq => 9 + (n + 1)
-  | .cbBody => 8 + (n + 1)
-  | .tAcq => 7 + (n + 1)
+  | .tAcq => 10 + (n + 1)
+  | .cbAcqIn => 9 + (n + 1)
+  | .cbAcq => 8 + (n + 1)
+  | .cbBody => 7 + (n + 1)
   | .bAcq => 6 + (n + 1)
   | .woken => 5 + (n + 1)
   | .waiting => 4 + (n + 1)
@@ -377,7 +386,10 @@ theorem pcW_act {n : Nat} {p : Pc} (h : act p = true) : n + 3 ≤ pcW n p := by
   cases p <;> simp at h <;> simp [pcW] <;> omega
 
 theorem pcW_firstPc (cfg : Cfg) (q : Nat) : pcW cfg.n (firstPc cfg q) < pcW cfg.n .notStarted := by
-  unfold firstPc; split <;> simp [pcW]
+  simp [firstPc, pcW]
+
+theorem pcW_afterT (cfg : Cfg) (q : Nat) : pcW cfg.n (afterT cfg q) < pcW cfg.n .tAcq := by
+  unfold afterT; split <;> simp [pcW]
 
 theorem poolW_addIdle {cfg : Cfg} (ps : List PoolSt) (q : Nat) :
     wsum (poolW cfg) 0 (addIdle ps q) ≤ wsum (poolW cfg) 0 ps + 1 := by
@@ -505,16 +517,17 @@ theorem variant_decreases {cfg : Cfg} (wf : WF cfg) {s s' : State} {l : Label} (
   | cbFail i hi hf =>
       have := variant_finish (s := { s with log := s.log ++ [i], cbLock := false
                                             cbIn := if (cfg.pool (cfg.poolOf i)).innerCb
-                                              then s.cbIn.set (cfg.poolOf i) false else s.cbIn })
-        (SInv_congr h.s rfl rfl rfl rfl (by simp only; split <;> simp) (fun _ => rfl) (fun _ => rfl))
+                                              then s.cbIn.set (cfg.poolOf i) false else s.cbIn
+                                            tLocks := s.tLocks.set (cfg.obj i) false })
+        (SInv_congr h.s rfl rfl (by simp) rfl (by simp only; split <;> simp) (fun _ => rfl) (fun _ => rfl))
         false hi rfl
       have h3 := pcW_act (n := cfg.n) (p := .cbBody) rfl
       simp only [variant] at this ⊢
       omega
   | cbOk i hi hf =>
-      have := hset (x := .tAcq) hi (by simp [pcW]); simp only [variant]; omega
-  | tAcq i hi hl =>
       have := hset (x := .bAcq) hi (by simp [pcW]); simp only [variant]; omega
+  | tAcq i hi hl =>
+      have := hset (x := afterT cfg (cfg.poolOf i)) hi (pcW_afterT cfg _); simp only [variant]; omega
   | bTry i p hi hp' =>
       rcases budgetTry_cases cfg s i with ⟨_, _, e⟩ | ⟨_, _, e⟩ | ⟨_, _, e⟩ | ⟨_, _, e⟩ <;> rw [e]
       · have := hset (x := .waiting) hi (by rcases hp' with rfl | rfl <;> simp [pcW])
